@@ -7,7 +7,8 @@ EXTENDS Ogg
 SizesEdge  == {1, 254, 255, 256, 509, 510, 511, 65024, 65025, 65026}
 SizesFew   == {1, 255, 65025, 65026}
 \* TOC bytes used exhaustively: 0 = SILK NB 10 ms, one frame (480 samples); 217 = CELT SWB 20 ms, two frames (1920);
-\* 99 = Hybrid SWB 10 ms, code 3 with second byte 3: three frames (1440)
+\* 99 = Hybrid SWB 10 ms, code 3: with second byte 3 three frames (1440), with 13 thirteen frames (6240 > 5760: refused),
+\* with 0 no frame (refused), with a single byte no count (refused)
 Bytes      == 0..255
 ChAll      == {"c1", "c2", "f1m", "f1s", "f2", "f255"}
 ChTwo      == {"c2", "f255"}
